@@ -1,5 +1,6 @@
 """C18 — Catalogue constructors return the objects they name (DESIGN §7 C18)."""
 import itertools, math
+import math
 import numpy as np
 import sympy as sp
 import numqi
@@ -226,6 +227,41 @@ def job_families(tier, rng):
         cnt += 1
         if not ok and bad is None:
             bad = jsonable(w)
+    def _near(x, lo, hi, n=12):
+        # the floating-point neighbours of a branch point of a closed form, on both sides, inside the documented range
+        out = [x]; u = x; v = x
+        for _ in range(n):
+            u = float(np.nextafter(u, np.inf)); v = float(np.nextafter(v, -np.inf)); out += [u, v]
+        return [y for y in out + [x + 1e-12, x - 1e-12, x + 1e-9, x - 1e-9] if lo <= y <= hi]
+    # branch points of the closed forms: separable boundary and the kink of the isotropic EOF (F = 4(d-1)/d^2); the values there must be finite and >= 0
+    for d in (2, 3, 4, 5, 6, 7, 8):
+        for a in _near(1 / d, -1, 1) + [-1.0, 1.0]:
+            chk(_guard(lambda: all(np.isfinite(float(f(d, float(a)))) and float(f(d, float(a))) >= -1e-12 and (a > 1 / d or float(f(d, float(a))) == 0) and (a < 1 / d + 1e-8 or True)
+                                   for f in (si.get_Werner_ree, si.get_Werner_GME, si.get_Werner_eof))), fn='Werner closed forms at the floating-point neighbours of the separable boundary', d=d, alpha=float(a))
+        ac = (4 * (d - 1) / (d * d) * d * d - 1) / (d * d - 1)
+        for a in _near(1 / (d + 1), -1 / (d * d - 1), 1) + _near(ac, -1 / (d * d - 1), 1) + [-1 / (d * d - 1), 1.0]:
+            chk(_guard(lambda: all(np.isfinite(float(f(d, float(a)))) and float(f(d, float(a))) >= -1e-12 and (a > 1 / (d + 1) or float(f(d, float(a))) == 0)
+                                   and (a > 1 / (d + 1) + 1e-8 or float(f(d, float(a))) < 1e-6)
+                                   for f in (si.get_Isotropic_ree, si.get_Isotropic_GME, si.get_Isotropic_eof))), fn='Isotropic closed forms at the floating-point neighbours of their branch points', d=d, alpha=float(a))
+    # closed-form EOF of the isotropic family against the formula of Terhal & Vollbrecht (PRL 85, 2625) re-stated here, plus continuity / monotonicity in alpha
+    def tv_eof(d, a):
+        F = (1 + a * (d * d - 1)) / (d * d)
+        if F <= 1 / d:
+            return 0.0
+        Fc = 4 * (d - 1) / (d * d)
+        if F <= Fc or d == 2:
+            g = min((math.sqrt(F) + math.sqrt((d - 1) * (1 - F))) ** 2 / d, 1.0)
+            h = 0.0 if g in (0.0, 1.0) else -g * math.log(g) - (1 - g) * math.log(1 - g)
+            return h + (1 - g) * math.log(d - 1) if d > 2 else h
+        return d * math.log(d - 1) / (d - 2) * (F - 1) + math.log(d)
+    for d in (2, 3, 4, 5, 6):
+        grid = np.linspace(-1 / (d * d - 1), 1, 4 * npts + 1)
+        vals = [float(si.get_Isotropic_eof(d, float(a))) for a in grid]
+        for a, v in zip(grid, vals):
+            chk(abs(v - tv_eof(d, float(a))) < 1e-9, fn='get_Isotropic_eof vs Terhal-Vollbrecht formula', d=d, alpha=float(a), value=v, formula=tv_eof(d, float(a)))
+        chk(all(vals[i + 1] >= vals[i] - 1e-12 for i in range(len(vals) - 1)) and max(abs(vals[i + 1] - vals[i]) for i in range(len(vals) - 1)) < 4 * math.log(d) / npts + 1e-9,
+            fn='get_Isotropic_eof monotone and without jumps', d=d)
+        chk(abs(float(si.get_Isotropic_eof(d, 1.0)) - math.log(d)) < 1e-12, fn='get_Isotropic_eof(alpha=1) = log d', d=d)
     for d in (2, 3, 4):
         for a in np.linspace(-1, 1, npts):
             chk(_guard(lambda: (lambda r: r.shape == (d * d, d * d) and _psd(r) and abs(np.trace(r) - 1) < 1e-12 and ((a > 1 / d + 1e-9) or _psd(_pt(r, d, d))) and ((a <= 1 / d + 1e-9) or not _psd(_pt(r, d, d))))(si.Werner(d, float(a)))), fn='Werner', d=d, alpha=float(a))
@@ -277,6 +313,8 @@ def job_upb(tier, rng):
             ok = ok and np.abs(prod.conj() @ prod.T - np.eye(N)).max() < 1e-9                              # orthonormal product vectors
             ok = ok and np.abs(prod - upb_mod.get_upb_product(upb)).max() < 1e-12
             ok = ok and _psd(bes) and abs(np.trace(bes) - 1) < 1e-9 and np.linalg.matrix_rank(bes, tol=1e-8) == D - N
+            # 'complementary projector': the BES is (I - sum_k |v_k><v_k|)/(D-N) for the product vectors v_k themselves (not their conjugates) and annihilates each of them
+            ok = ok and np.abs(bes * (D - N) - (np.eye(D) - prod.T @ prod.conj())).max() < 1e-9 and np.abs(bes @ prod.T).max() < 1e-9
             if len(dims) == 2:
                 ok = ok and _psd(_pt(bes, dims[0], dims[1]))
             else:
